@@ -115,7 +115,7 @@ control characters, backslashes and a missing final line feed are all covered. -
 theorem C09_line_roundtrip (P : Params) (hP : StdParams P) (m : Mode) (isOther : Char → Bool)
     (hC : m = .unicode → AsciiContract isOther) (l : List UInt8) (hl : Newline.IsLine l) :
     ∃ t, expectationLine m isOther l = some t ∧
-      '\n' ∉ t ∧ commandLead t = none ∧ LineParser.extractExitCode t = none ∧
+      '\n' ∉ t ∧ commandLead t = none ∧ LineParser.isExitCodeForm t = false ∧
       ∃ e, parse P t = .ok e ∧ e.optional = false ∧ e.multiline = false ∧
         (e.kind = .equal ∨ e.kind = .noEol ∨ e.kind = .escaped) ∧
         strRuleMatches e.kind e.expr l = true := by
@@ -137,7 +137,7 @@ theorem C09_commandLead_none (t : List Char) (h : commandLead t = none) :
 line or later -- `add_testcase_body` appends such a text to the expectations of the test -/
 theorem C09_line_is_expectation {κ : Type} (expOk : List Char → Bool) (s : LineParser.State κ)
     (t : List Char) (idx : Nat) (hcmd : s.command.isEmpty = false) (hlead : commandLead t = none)
-    (hexit : LineParser.extractExitCode t = none) (hok : expOk t = true) :
+    (hexit : LineParser.isExitCodeForm t = false) (hok : expOk t = true) :
     s.addBody expOk t idx =
       .ok ({ s with inCommand := false, expectations := s.expectations ++ [t] }, .expectation) :=
   addBody_expectation expOk s t idx hcmd hlead hexit hok
